@@ -6,8 +6,46 @@
 -/
 import PgVerif.Basic.Canon
 import PgVerif.Spec.Heap
+import PgVerif.Spec.Pglz
+import PgVerif.Spec.Lz4
 namespace PgVerif.Spec
 open PgVerif
+
+/-- the compressed form of a value PostgreSQL stored compressed in line: a pglz stream (any token list — every tag form,
+overlapping copies — whose expansion is the value) or an LZ4 block (PostgreSQL 14+) -/
+inductive Comp where
+  | pglz (ts : List Pglz.Tok)
+  | lz4 (b : Lz4.Block)
+deriving Repr, DecidableEq, Inhabited
+
+/-- the value: what the stream stands for -/
+def Comp.original : Comp → Bytes
+  | .pglz ts => Pglz.expand ts
+  | .lz4 b => Lz4.expand b
+
+def Comp.stream : Comp → Bytes
+  | .pglz ts => Pglz.renderPglz ts
+  | .lz4 b => Lz4.render b
+
+/-- va_tcinfo: size of the uncompressed data (no header) in the low 30 bits, compression method in the top 2
+(0 pglz, 1 LZ4; PostgreSQL 12/13 know pglz only and write the plain size) -/
+def Comp.tcinfo : Comp → Nat
+  | .pglz ts => (Pglz.expand ts).length
+  | .lz4 b => (Lz4.expand b).length + 2 ^ 30
+
+/-- what follows the 4-byte varlena header: va_tcinfo, then the stream -/
+def Comp.stored (z : Comp) : Bytes := le 4 z.tcinfo ++ z.stream
+
+/-- a valid stream (tag fields in range, every offset within the output produced so far) standing for less than 1 GiB;
+a pglz stream has at least 4 bytes (pglz never emits less for the ≥ 32-byte inputs PostgreSQL compresses) -/
+def Comp.WF (z : Comp) : Prop :=
+  z.original.length < 2 ^ 30 ∧
+  match z with
+  | .pglz ts => Pglz.PglzWF ts ∧ 4 ≤ (Pglz.renderPglz ts).length
+  | .lz4 b => Lz4.Lz4WF b
+
+instance (z : Comp) : Decidable z.WF := by
+  unfold Comp.WF; cases z <;> simp only <;> infer_instance
 
 /-- a column as the catalog describes it: attlen (>0 fixed, −1 varlena, −2 C string), attalign in bytes -/
 structure Col where
@@ -22,7 +60,7 @@ inductive Datum where
   | fixed (bs : Bytes)          -- attlen > 0: exactly attlen bytes
   | short (p : Bytes)           -- varlena, 1-byte header, payload p (≤ 126 bytes), never aligned
   | long (p : Bytes)            -- varlena, 4-byte header, uncompressed
-  | compressed (raw : Bytes)    -- varlena, 4-byte header with the "compressed" bit; raw = va_tcinfo ++ stream
+  | compressed (z : Comp)       -- varlena, 4-byte header with the "compressed" bit, then z.stored = va_tcinfo ++ stream
   | external (body : Bytes)     -- on-disk TOAST pointer: 0x01, 0x12, then 16 bytes; never aligned
   | cstr (p : Bytes)            -- attlen −2: bytes then NUL
 deriving Repr, DecidableEq, Inhabited
@@ -34,7 +72,7 @@ def Datum.WF (c : Col) : Datum → Prop
   | .fixed bs => 0 < c.len ∧ (bs.length : Int) = c.len
   | .short p => c.len = -1 ∧ p.length ≤ 126
   | .long p => c.len = -1 ∧ p.length + 4 < 2 ^ 30
-  | .compressed raw => c.len = -1 ∧ 4 ≤ raw.length ∧ raw.length + 4 < 2 ^ 30
+  | .compressed z => c.len = -1 ∧ z.WF ∧ z.stored.length + 4 < 2 ^ 30
   | .external body => c.len = -1 ∧ body.length = 16
   | .cstr p => c.len = -2 ∧ c.align = 1 ∧ (0 : UInt8) ∉ p
 
@@ -46,7 +84,7 @@ def formDatum (c : Col) (o : Nat) : Datum → Bytes
   | .fixed bs => pad o c.align ++ bs
   | .short p => UInt8.ofNat (2 * (p.length + 1) + 1) :: p
   | .long p => pad o c.align ++ (le 4 ((p.length + 4) * 4) ++ p)
-  | .compressed raw => pad o c.align ++ (le 4 ((raw.length + 4) * 4 + 2) ++ raw)
+  | .compressed z => pad o c.align ++ (le 4 ((z.stored.length + 4) * 4 + 2) ++ z.stored)
   | .external body => 1 :: 18 :: body
   | .cstr p => p ++ [0]
 
@@ -137,14 +175,14 @@ def formTupleH (h : HdrFields) (cols : List Col) (r : RowV) : Tuple :=
 theorem formTuple_eq_H (cols : List Col) (r : RowV) : formTuple cols r = formTupleH {} cols r := rfl
 
 /-- what the reader must report for a stored datum, given the rendering `val` of (payload, type oid):
-the payload of a fixed / short / long value, the raw stored bytes of an inline-compressed one (content is
-C08's business), the C string itself; an external value cannot be resolved from the tuple alone and is
+the payload of a fixed / short / long value, the ORIGINAL (uncompressed) bytes of an inline-compressed one, the C
+string itself; an external value cannot be resolved from the tuple alone and is
 reported as the tool's placeholder nil (its resolution is C08's business) -/
 def expectedVal (val : Bytes → Int → M GoVal) (c : Col) : Datum → M GoVal
   | .fixed bs => val bs c.typid
   | .short p => val p c.typid
   | .long p => val p c.typid
-  | .compressed raw => val raw c.typid
+  | .compressed z => val z.original c.typid
   | .external _ => pure .nil
   | .cstr p => pure (.str p)
 
